@@ -103,6 +103,16 @@ var properties = map[string]*propSpec{
 			{Check: "TestC03_Total", Class: "outcome:ErrorFunctionFailed", Min: 0.005},
 		},
 	},
+	"C08": {
+		Title: "Steps compose: P followed by Q equals Q applied to each result of P",
+		Checks: []checkSpec{
+			{Test: "TestC08_Compose", Quick: 20000, Thorough: 300000, Rapid: true},
+		},
+		Assumptions: assume("relational oracle: three retrievals of the library are compared with each other; a defect hitting all three equally is C01's business"),
+		Floors: []floor{
+			{Check: "TestC08_Compose", Class: "nontrivial", Denominator: "split:checked", Min: 0.15},
+		},
+	},
 	"C11": {
 		Title: "Index and slice arithmetic is exact and total for every start/end/step/length",
 		Checks: []checkSpec{
